@@ -22,6 +22,7 @@ PARTIALS_SRC = {
 }
 
 _CLASSES: dict = {}
+_SENTINEL = object()
 
 
 def _recording_classes():
@@ -31,26 +32,43 @@ def _recording_classes():
     from liquid import BoundTemplate
     from liquid import RenderContext
 
-    log: dict = {"max": 0, "assigns": 0, "in_partial": 0}
+    log: dict = {"max": 0, "assigns": 0, "in_partial": 0, "contexts": []}
+
+    def measure(ctx) -> int:
+        total = 0
+        depth = 0
+        while ctx is not None:
+            total += sum(sys.getsizeof(v, 1) for v in ctx.locals.values())
+            ctx = ctx.parent_context
+            depth += 1
+        if total > log["max"]:
+            log["max"] = total
+        return depth
 
     class RecordingContext(RenderContext):
         __slots__ = ()
 
+        def __init__(self, *args, **kwargs):  # noqa: ANN002, ANN003
+            super().__init__(*args, **kwargs)
+            log["contexts"].append(self)  # measured again when the render is over (see _render)
+
         def assign(self, key, val):  # noqa: ANN001
             super().assign(key, val)
             # only reached when the engine accepted the assignment
-            total = 0
-            ctx = self
-            depth = 0
-            while ctx is not None:
-                total += sum(sys.getsizeof(v, 1) for v in ctx.locals.values())
-                ctx = ctx.parent_context
-                depth += 1
+            depth = measure(self)
             log["assigns"] += 1
             if depth > 1:
                 log["in_partial"] += 1
-            if total > log["max"]:
-                log["max"] = total
+
+        # the namespace is also measured at every read, so that a value that got into the locals without going
+        # through assign() is seen as well
+        def get(self, path, *, token, default=_SENTINEL):  # noqa: ANN001
+            measure(self)
+            if default is _SENTINEL:
+                return super().get(path, token=token)
+            return super().get(path, token=token, default=default)
+
+    log["measure"] = measure
 
     class RecordingTemplate(BoundTemplate):
         context_class = RecordingContext
@@ -74,11 +92,17 @@ def _env(case, limits: dict):
 
 def _render(case, limits: dict):
     env, log = _env(case, limits)
-    log.update(max=0, assigns=0, in_partial=0)
+    log.update(max=0, assigns=0, in_partial=0, contexts=[])
     src = gg.to_source(case["main"])
     data = gd.decode(case["data"])
     o = oc.outcome_of(lambda: env.from_string(src).render(**data))
-    return o, dict(log)
+    for ctx in log["contexts"]:
+        # what the top-level context holds when the render is over (a finished partial's locals are dead by then and
+        # never coexisted with what its ancestors hold now: partial contexts are measured at their assigns and reads)
+        if ctx.parent_context is None:
+            log["measure"](ctx)
+    log["contexts"] = []
+    return o, {k: log[k] for k in ("max", "assigns", "in_partial")}
 
 
 def evaluate(case) -> Verdict:
@@ -147,12 +171,37 @@ def _profile(cfg) -> gg.Profile:
     )
 
 
+WIDTHS = ["a", "é", "漢", "😀"]  # 1, 1 (latin-1), 2 and 4 bytes per character in memory
+
+
+def _rebinds(r) -> list:
+    """Bind the same name again and again to strings of the same (or shorter) length and different width."""
+    n = r.choice([20, 60, 200])
+    out: list = []
+    name = r.choice(["s", "t"])
+    for _ in range(r.randint(2, 4)):
+        ch = r.choice(WIDTHS)
+        text = ch * (n - r.choice([0, 0, 1, 5]))
+        if r.random() < 0.6:
+            out.append({"k": "capture", "name": name, "body": [{"k": "text", "v": text}]})
+        else:
+            out.append({"k": "assign", "name": name, "e": {"k": "filt", "left": {"k": "str", "v": text, "q": "'"}, "filters": []}, "ws": None})
+        if r.random() < 0.3:
+            out.append({"k": "out", "e": {"k": "filt", "left": {"k": "path", "segs": [{"s": name}]}, "filters": [{"name": "size", "args": []}]}, "ws": None})
+    return out
+
+
 @st.composite
 def cases(draw):
     r = core.rng(draw)
     cfg = {"undefined": "default", "autoescape": False, "strict_filters": True, "extra": False, "flags": {}}
     prof = _profile(cfg)
     main = gg.Gen(r, prof).template()
+    if r.random() < 0.3:
+        main = _rebinds(r) + main[:2]
+        if r.random() < 0.4:
+            main = [{"k": "for", "var": "i", "iter": {"k": "range", "a": {"k": "int", "v": 1}, "b": {"k": "int", "v": 2}}, "?limit": None,
+                     "?offset": None, "rev": False, "body": main, "?else": None, "ws": None}]
     pp = _profile(cfg)
     pp.depth, pp.partials, pp.in_partial = 2, ["p"], "render"
     gen = gg.Gen(r, pp).template()
@@ -174,7 +223,9 @@ def finish_kwargs(ctx: core.Ctx, tier: str) -> dict:
             "local-namespace size s. Output limit L in {0,1,U-1,U,U+1,2U,2 random}: a completed render returns <= L "
             "bytes and U > L must raise OutputStreamLimitError. Namespace limit M in {0,1,s-1,s,s+1,2s,2 random}: a "
             "completed render never observed (after any accepted assign/capture) own+ancestor locals measuring more "
-            "than M. Non-trivial = U >= 8 with a multi-byte character and a capture/partial/ifchanged, or >= 2 "
+            "than M (also measured at every variable read and, for the top-level context, when the render is over). 30% of the "
+            "templates re-bind one name several times to strings of equal or shorter length and different character "
+            "width. Non-trivial = U >= 8 with a multi-byte character and a capture/partial/ifchanged, or >= 2 "
             "assignments of which one inside a rendered partial."
         ),
         "assumptions": [
